@@ -8,7 +8,13 @@ From OIDC Require Import Lib C09_Json C09_Codec.
 Inductive helper :=
 | HDiscover | HTokenEndpoint | HTokenExchange | HDeviceAuthz | HDeviceToken | HUserinfo | HIntrospect | HJwks.
 
-Inductive body := BInvalid | BJson (j : json).     (* BInvalid: empty, truncated or otherwise not a JSON document *)
+Inductive body :=
+| BInvalid              (* empty, truncated or otherwise not a JSON document *)
+| BJson (j : json)
+| BTrailing (j : json). (* a complete JSON value followed by further non-blank bytes (appended error page,
+                           two concatenated documents): not a JSON document either *)
+
+Definition well_formed (b : body) : bool := match b with BJson _ => true | _ => false end.
 
 Record answer := { a_ok : bool (* status 200 *); a_body : body }.
 
@@ -34,6 +40,7 @@ Section Client.
     if negb (a_ok a) then Err else        (* non-200: *oidc.Error or a plain error, always an error *)
     match a_body a with
     | BInvalid => Err
+    | BTrailing _ => Err     (* json.Unmarshal validates the whole body first *)
     | BJson j =>
         if is_null j then (if guard then Err else Ok None)
         else match decode_struct rfc3339_ok lang_class true (fst (hschema h)) (snd (hschema h)) j with
